@@ -1116,7 +1116,9 @@ class Date(_BaseDateTime, dtypes.Date):
 
         def _to_datetime(col: PandasObject) -> PandasObject:
             col = to_datetime_fn(col, **self.to_datetime_kwargs)
-            return col.astype(pandas_dtype).dt.date
+            # astype(object): an all-NaT result would otherwise be inferred
+            # back to datetime64[ns], which fails Date.check
+            return col.astype(pandas_dtype).dt.date.astype(object)
 
         if isinstance(data_container, pd.DataFrame):
             # pd.to_datetime transforms a df input into a series.
